@@ -1,10 +1,10 @@
 """C13 - image modification yields a well-formed image and leaves the source untouched (mod/*).
 
 (D) spec/Mod.tla (mod.Apply: option registration, manifest / config / layer phases, dagPut's two
-passes with the iConfig alignment, index branch) is model-checked by TLC in its repaired form
-(alignment / truthfulness / resolution / no-op invariants) and, defect by defect, in its as-is form
-(each known defect must come out as a counterexample).  spec/ModGen.tla emits option programs with
-the design spec's prediction for the code as it is; c13drv runs every program through the real
+passes with the iConfig alignment, index branch) is model-checked by TLC as the code is now
+(alignment / truthfulness / resolution / no-op invariants) and, defect by defect, with the switch
+of each repaired defect off (each must come out as a counterexample).  spec/ModGen.tla emits option
+programs with the design spec's prediction for the code as it is now; c13drv runs every program through the real
 mod.Apply on catalogue images (registry = simreg, OCI layout; same / other repository), audits the
 target closure independently and records facts; TLC validates every trace against the monitor
 spec/ModProp.tla via spec/ModTrace.tla.  A mismatch with the prediction is drift (counted), a trace
@@ -250,15 +250,16 @@ def run(ctx):
         mc.append(ctx.tlc("ModMC", "C13_mc_t_core4.cfg", label="repaired design: alignment universe, interaction core, programs <= 4", timeout=3000))
         mc.append(ctx.tlc("ModMC", "C13_mc_t_shapes2.cfg", label="repaired design: shapes, every pair of options", timeout=3000))
     asis = {}
+    # each repaired defect (fix commits 1c05a04 b052c11 29901b5 72c6cba ccb0066 27c13f3) has a switch in the spec; with
+    # the switch off the spec must still produce the counterexample (this is what explains the fixrev-C13-* seeds)
     for name, inv in (("data", "PostTruthful"), ("writer", "PostTruthful"), ("added", "PostAligned"),
-                      ("tag", "PostResolves"), ("close", "PostTruthful")):
-        r = ctx.tlc("ModMC", "C13_mc_asis_%s.cfg" % name, label="code as it is: Fix%s off" % name.capitalize(), workers=2,
+                      ("tag", "PostResolves"), ("close", "PostTruthful"), ("desc", "PostTruthful")):
+        r = ctx.tlc("ModMC", "C13_mc_asis_%s.cfg" % name, label="before the repair: Fix%s off" % name.capitalize(), workers=2,
                     allow_violation=True)
         asis[name] = r["violated"]
         if r["violated"] != inv:
-            # the design spec of today's code no longer shows the recorded defect: either it was repaired in the
-            # code (then the switch must go) or the spec is wrong
-            vlib.log("C13: as-is configuration %s gave %r, expected a counterexample of %s" % (name, r["violated"], inv))
+            raise vlib.ToolError("configuration C13_mc_asis_%s gave %r, expected a counterexample of %s: the design spec "
+                                 "no longer explains the repaired defect" % (name, r["violated"], inv))
     states = sum(r["distinct"] for r in mc)
     trans = sum(r["generated"] for r in mc)
 
